@@ -62,6 +62,8 @@ def gen_values(r, size, style, dims=None):
             v = Fraction(r.choice([1, 2, 3, 2000, 2001, 1990, 10, 11, 0]))
         else:
             v = Fraction(r.randint(-20, 60), r.choice([1, 1, 2, 4])) if r.random() < 0.8 else Fraction(0)
+            if r.random() < 0.06:
+                v = Fraction(r.choice([1, -1, 3]), 2 ** r.choice([30, 40]))      # tiny, but not zero
         out.append(v)
     return out
 
